@@ -37,6 +37,9 @@ def _budget(tier, default_quick, default_thorough):
 
 def _merge_stats(total, s):
     for k, v in s.items():
+        if k == "state_digests":
+            total.setdefault("_states", set()).update(v)
+            continue
         if isinstance(v, dict):
             d = total.setdefault(k, {})
             for kk, vv in v.items():
@@ -324,6 +327,8 @@ def project_coverage(prop, tier, stats, nruns, other, samples, pstats, wall, kno
         "probes": {k: stats.get(k, 0) for k in ("r3_checked", "r4_checked", "a2_checked", "c11_checked", "sp_checked", "twin_checks", "gen_ops",
                                                 "stray_after_kill_tolerated", "stdout_lines_unrecognised", "a3_checked", "a3_skipped_lossy_in_memory")},
         "a3_interface_checks": stats.get("a3", {}),
+        "distinct_project_states_reached": len(stats.get("_states", ())),
+        "reach_probes": stats.get("reach", {}),
         "invocation_table_rows": stats.get("table_rows", 0),
         "ended_by_other_property": other,
         "known_findings_hit": {fid: n for fid, (_k, n) in known_hit.items()},
